@@ -51,6 +51,14 @@ def gen_input(rng: random.Random) -> dict:
          'Reservoir Porosity': round(rng.choice([rng.uniform(1, 40), rng.uniform(1, 40), rng.uniform(0.01, 1.0), rng.uniform(40, 100)]), 3), 'Reservoir Area': round(rng.uniform(1, 500), 3),
          'Reservoir Thickness': round(rng.uniform(0.05, 2), 4), 'Reservoir Life Cycle': rng.randint(5, 60),
          'Recoverable Fluid Factor': round(rng.uniform(0.1, 1), 3), 'Recoverable Heat from Rock': round(rng.uniform(0.2, 1), 3)}
+    # a declared range end as an ordinary figure (one fraction at a time: both at 0 is 0/0 in the model)
+    x = rng.random()
+    if x < 0.08:
+        p['Recoverable Fluid Factor'] = rng.choice([0, 1])
+    elif x < 0.16:
+        p['Recoverable Heat from Rock'] = rng.choice([0, 1])
+    elif x < 0.2:
+        p['Reservoir Porosity'] = 100
     if rng.random() < 0.5:
         p['Reservoir Depth'] = round(rng.uniform(0.5, 6), 3)
     if rng.random() < 0.4:
@@ -82,6 +90,15 @@ def evaluate(res: Result, bases: list, rng: random.Random, full: bool = False):
                 q[key] = p[key] * f
                 if q[key] > 9000:
                     continue
+                plan.append((kind, k, f))
+                jobs.append(text_of(q))
+        # the two recoverable fractions: what they multiply is proportional to them, down to the range end 0
+        for kind, key in (('fluidfrac', 'Recoverable Fluid Factor'), ('rockfrac', 'Recoverable Heat from Rock')):
+            if p[key] == 0 or p['Recoverable Fluid Factor'] == 0 or p['Recoverable Heat from Rock'] == 0:
+                continue
+            for f in ([0.0, 0.5] if full or rng.random() < 0.5 else [rng.choice([0.0, 0.5])]):
+                q = dict(p)
+                q[key] = p[key] * f
                 plan.append((kind, k, f))
                 jobs.append(text_of(q))
         # unit variants: the same inputs written in other catalogue units
@@ -123,7 +140,12 @@ def evaluate(res: Result, bases: list, rng: random.Random, full: bool = False):
         for kind, f, o in lst:
             if kind == 'base' or o['status'] != 'ok':
                 continue
-            if kind in ('area', 'thick'):
+            if kind in ('fluidfrac', 'rockfrac'):
+                names = ['volume_fluid', 'stored_fluid'] if kind == 'fluidfrac' else ['stored_rock']
+                ext = {'tid': 0, 'clause': f'C17_{kind}_homog', 'kind': 'scaled', 'tol': '1e-9',
+                       'rungs': [{'x': '1', 'ys': rats([base['o'][n_] for n_ in names])}, {'x': rat(f), 'ys': rats([o['o'][n_] for n_ in names])}]}
+                rel.append((ext, k, kind, f, names))
+            elif kind in ('area', 'thick'):
                 ext = {'tid': 0, 'clause': f'C17_{kind}_homog', 'kind': 'scaled', 'tol': '1e-9',
                        'rungs': [{'x': '1', 'ys': rats([base['o'][n_] for n_ in EXTENSIVE])}, {'x': rat(f), 'ys': rats([o['o'][n_] for n_ in EXTENSIVE])}]}
                 names = INT_AREA if kind == 'area' else INT_THICK
